@@ -17,7 +17,7 @@ EXTENDS TrackModel, Json, IOUtils, TLC
 
 Items == JsonDeserialize(IOEnv.VERIF_TRACES)
 ToSet(s) == {s[j] : j \in 1..Len(s)}
-Norm(F) == [F EXCEPT !.supN = ToSet(@), !.supS = ToSet(@), !.parts = ToSet(@)]
+Norm(F) == [F EXCEPT !.supN = ToSet(@), !.supS = ToSet(@), !.parts = ToSet(@), !.refs = ToSet(@)]
 
 VARIABLES i
 TInit == i = 1 /\ f = <<>> /\ violated = "none" /\ lim = 0
